@@ -462,3 +462,26 @@ package shimagent
 //@       (!s.noUpstreamSSHCACert || !keyutil.castable(signerKey(uss[j])) ||
 //@        (!(sha(blobid(signerKey(uss[j]))) in dom(s.upstreamSSHCACertCache)) && !hiddenKey(signerKey(uss[j])))) ==>
 //@       exists(i, 0 <= i && i < len(signers), signers[i] == uss[j]))
+
+//@ # ---------------------------------------------------------------- construction: the invariants every method relies on are established here
+//@ # c09: in no-upstream mode the cache starts with the hashes of the upstream certificates whose key id decodes as a YSSHCA KeyID
+//@ func newShimAgent(conn, noUpstream)
+//@   let l0 = old(calls(Agent.List))
+//@   ensures conn == nil ==> (result0 == nil && result1 != nil)
+//@   ensures result1 != nil ==> result0 == nil
+//@   ensures [invariants-established] result1 == nil ==> (result0 != nil && fresh(result0) && inv(result0) && inv2(result0) && condsOK(result0) && unheld(result0) &&
+//@     !result0.locked && result0.noUpstreamSSHCACert == noUpstream && result0.conn == conn && mapdom(result0.certs) == nokeys(result0.certs))
+//@   ensures [upstream-listed-only-in-no-upstream-mode] !noUpstream ==> calls(Agent.List) == l0
+//@   ensures [start-up-cache-holds-the-upstream-ysshca-certificates] (result1 == nil && noUpstream) ==> (calls(Agent.List) == l0 + 1 && ret(Agent.List, l0, 1) == nil &&
+//@     forall(j, 0 <= j && j < len(ret(Agent.List, l0, 0)), hiddenBlob(kb(listed(l0, j))) ==> (sha(kb(listed(l0, j))) in dom(result0.upstreamSSHCACertCache))))
+//@   loop 1:
+//@     invariant srv != nil && fresh(srv) && srv.agent != nil && srv.conn == conn && conn != nil && srv.certs != nil && fresh(srv.certs) && srv.upstreamSSHCACertCache != nil && fresh(srv.upstreamSSHCACertCache) &&
+//@       !srv.locked && srv.noUpstreamSSHCACert == noUpstream && mstate(addrof(srv.mu)) == 0
+//@     invariant mapdom(srv.certs) == nokeys(srv.certs) && mapdom(srv.upstreamSSHCACertCache) == nokeys(srv.upstreamSSHCACertCache) && calls(Agent.List) == l0
+//@     invariant forall(i, 0 <= i && i <= rangeindex, srv.conds[i] != nil && srv.conds[i].L != nil && mstate(pl(srv.conds[i].L)) == 0)
+//@   loop 2:
+//@     invariant srv != nil && fresh(srv) && inv(srv) && srv.conn == conn && !srv.locked && srv.noUpstreamSSHCACert == noUpstream && noUpstream && mstate(addrof(srv.mu)) == 0
+//@     invariant mapdom(srv.certs) == nokeys(srv.certs) && calls(Agent.List) == l0 + 1 && ret(Agent.List, l0, 1) == nil && keys == ret(Agent.List, l0, 0)
+//@     invariant condsOK(srv)
+//@     invariant forall(j, 0 <= j && j < len(keys), keys[j] != nil && keys[j] == listed(l0, j), keys[j])
+//@     invariant forall(j, 0 <= j && j <= rangeindex, hiddenBlob(kb(listed(l0, j))) ==> (sha(kb(listed(l0, j))) in dom(srv.upstreamSSHCACertCache)))
